@@ -41,66 +41,40 @@ mod verif_kani {
         }
     }
 
-    // (E == 0 is rejected by Block::new_from_buffer before any slicing; one harness per E keeps CBMC under 5 minutes:
-    //  the single harness with a symbolic E in 1..=3 needed 290 s of solver time)
+    // E == 0 is rejected by Block::new_from_buffer before any slicing.  Lengths and E are enumerated by concrete loops
+    // (the bytes stay symbolic): with a symbolic length CBMC needed 150..290 s and 5..7 GB per harness.
 
-    // @HARNESS id=C08.block.create_shards_no_code.slices_e1 tier=quick kind=Kb props=C08 bound="every buffer of 0..=6 symbolic bytes, E = 1" timeout=900
+    // @HARNESS id=C08.block.create_shards_no_code.slices tier=quick kind=Kb props=C08 bound="every buffer of 0..=6 symbolic bytes, E in 1..=3" timeout=900
+    /// shard i == buffer[i*E .. min((i+1)*E, len)], ESI == index, exactly ceil(len/E) shards (none for an empty buffer)
     #[cfg(kani)]
     #[kani::proof]
-    #[kani::unwind(8)]
+    #[kani::unwind(9)]
     #[kani::stub(alloc::fmt::format, stub_format)]
     #[kani::stub(crate::tools::error::FluteError::new, stub_flute_error_new)]
-    fn no_code_slices_e1() {
-        h_no_code_slices_e1(kani::any(), kani::any());
+    fn no_code_slices() {
+        h_no_code_slices(kani::any());
     }
-    pub fn h_no_code_slices_e1(buf: [u8; MAXLEN], len: usize) {
-        vk_assume!(len <= MAXLEN);
-        check_no_code_slices(buf, len, 1);
-        vk_cover!(len == 6);
-        vk_cover!(len == 0);
-    }
-
-    // @HARNESS id=C08.block.create_shards_no_code.slices_e2 tier=quick kind=Kb props=C08 bound="every buffer of 0..=6 symbolic bytes, E = 2" timeout=900
-    #[cfg(kani)]
-    #[kani::proof]
-    #[kani::unwind(8)]
-    #[kani::stub(alloc::fmt::format, stub_format)]
-    #[kani::stub(crate::tools::error::FluteError::new, stub_flute_error_new)]
-    fn no_code_slices_e2() {
-        h_no_code_slices_e2(kani::any(), kani::any());
-    }
-    pub fn h_no_code_slices_e2(buf: [u8; MAXLEN], len: usize) {
-        vk_assume!(len <= MAXLEN);
-        check_no_code_slices(buf, len, 2);
-        vk_cover!(len == 6);
-        vk_cover!(len == 5); // short last symbol
-        vk_cover!(len == 0);
+    pub fn h_no_code_slices(buf: [u8; MAXLEN]) {
+        let mut e = 1u16;
+        while e <= 3 {
+            let mut len = 0usize;
+            while len <= MAXLEN {
+                check_no_code_slices(buf, len, e);
+                len += 1;
+            }
+            e += 1;
+        }
+        vk_cover!(buf[5] == 0xA5);
     }
 
-    // @HARNESS id=C08.block.create_shards_no_code.slices_e3 tier=quick kind=Kb props=C08 bound="every buffer of 0..=6 symbolic bytes, E = 3" timeout=900
-    #[cfg(kani)]
-    #[kani::proof]
-    #[kani::unwind(8)]
-    #[kani::stub(alloc::fmt::format, stub_format)]
-    #[kani::stub(crate::tools::error::FluteError::new, stub_flute_error_new)]
-    fn no_code_slices_e3() {
-        h_no_code_slices_e3(kani::any(), kani::any());
-    }
-    pub fn h_no_code_slices_e3(buf: [u8; MAXLEN], len: usize) {
-        vk_assume!(len <= MAXLEN);
-        check_no_code_slices(buf, len, 3);
-        vk_cover!(len == 6);
-        vk_cover!(len == 4); // short last symbol
-        vk_cover!(len == 0);
-    }
-
+    // Abandoned variants of the next harness: through Block::new_from_buffer itself -- which drags the Reed-Solomon /
+    // Raptor / RaptorQ encoders into the model -- CBMC passed 11 GB after 5 minutes; with a symbolic length 1..=4 it
+    // passed 23 GB after 2 minutes.  The general statement about `read` is the Verus contract C08.block.read.*;
+    // this harness only checks the glue between the slicing and `read`.
     // @HARNESS id=C08.block.no_code_slices_then_read_order tier=quick kind=Kb props=C08 bound="every buffer of exactly 3 symbolic bytes, E = 2 (k = 2, short last symbol), No-Code" timeout=900
     /// create_shards_no_code + Block::read composed (the Block is built as new_from_buffer builds it: read_index 0,
     /// nb_source_symbols = ceil(len/E)): the symbols come out with ESI 0,1,..,k-1, each once, all flagged source,
     /// `last` exactly on ESI k-1, their concatenation is the buffer, then None.
-    /// (Abandoned variants: through Block::new_from_buffer itself -- which drags the Reed-Solomon/Raptor/RaptorQ encoders
-    ///  into the model -- CBMC passed 11 GB after 5 minutes; with a symbolic length 1..=4 it passed 23 GB after 2 minutes.
-    ///  The general statement about `read` is the Verus contract C08.block.read.*; this harness only checks the glue.)
     #[cfg(kani)]
     #[kani::proof]
     #[kani::unwind(5)]
